@@ -112,7 +112,7 @@ def s1(ctx):
 @rule("S2", doc="ProgressMeasure equality is derived over all four fields; fields come from their sources (C13.T3)")
 def s2(ctx):
     crate = ctx.lib()
-    imps = [i for i in crate.impls if i.get("self_adt") == "rewrite::ProgressMeasure" and i.get("trait") == "std::cmp::PartialEq"]
+    imps = [i for i in crate.impls if str(i.get("self_adt", "")).split("::")[-1] == "ProgressMeasure" and i.get("trait") == "std::cmp::PartialEq"]
     ctx.check(len(imps) == 1 and imps[0]["auto_derived"], "derived-partial-eq", "PartialEq for ProgressMeasure is #[derive]d (compares every field)",
               "PartialEq for ProgressMeasure is hand-written (%d impls): a field may be left out of the saturation test" % len(imps))
     adt = crate.adt_named("rewrite::ProgressMeasure")
